@@ -320,7 +320,13 @@ func c07Exec(f []string) string {
 		// the encoder object has been used before, as in a GPFile that writes and reads many blocks
 		w := &c07Writer{lim: -1}
 		pat := bytes.Repeat([]byte("goProbe warm-up block "), 50)
-		if _, err := e.Compress(pat, make([]byte, 8192), w); err == nil {
+		// (half of the time with a scratch buffer that is too small for the warm-up block, so that an
+		// encoder that keeps a buffer of its own has sized it for a SMALLER input than the one that follows)
+		scratch := make([]byte, 8192)
+		if len(data)%2 == 1 {
+			scratch = make([]byte, 16)
+		}
+		if _, err := e.Compress(pat, scratch, w); err == nil {
 			_, _ = e.Decompress(make([]byte, len(w.b)), make([]byte, len(pat)), &c07Reader{b: w.b})
 		}
 	}
